@@ -20,7 +20,8 @@ class MessageHead(packet.Packet):
         if not self.payload and self.guess_payload_class(b'').fields_desc:
             # Messages without any fields are complete with the header alone
             raise formats.VerifyError('Message without payload')
-        if isinstance(self.payload, packet.Raw):
+        if isinstance(self.payload, packet.Raw) and self.guess_payload_class(b'') is not packet.Raw:
+            # Known message type which failed to decode fully
             raise formats.VerifyError('Message with improper payload')
 
         packet.Packet.post_dissection(self, pkt)
